@@ -491,6 +491,13 @@ def rule_unsafe_inventory(col, facts, crates, handled, contracts):
             if f.unsafe or (f.kind == "Closure" and facts.by_short.get(f.closure_of, [None])[0] is not None and facts.by_short[f.closure_of][0].unsafe):
                 col.assumed(R, key, "inside an unsafe fn: obligation forwarded to its callers (which are themselves inventoried)", loc)
                 continue
+            # a private helper all of whose callers hold the named contract for this very callee (the tail of
+            # to_string extracted into `into_string(buffer, written)`; DLG-to_string reads such a helper in place)
+            callers = {g.short for g in facts.all_fns() if g.crate == f.crate and any(callee_name(c2) == base for _b, c2, _a, _d, _t in g.calls())}
+            inherited = [why for (fs, cs), why in contracts.items() if cn.endswith(cs) and any(x.endswith(fs) for x in callers)]
+            if callers and all(any(x.endswith(fs) and cn.endswith(cs) for (fs, cs) in contracts) for x in callers):
+                col.assumed(R, key, "private helper called only from %s: %s" % (sorted(callers), inherited[0] if inherited else ""), loc)
+                continue
             col.bad(R, key, "call to unsafe `%s` in safe function `%s` that no guard rule or named exception covers" % (cn, base), loc)
     return n
 
